@@ -75,7 +75,7 @@ func VerifC11_SilenceCrash() {
 		vfAdvance(time.Minute)
 		b := hSil11([]string{"b", "c"}[round], vfNow())
 		vfAssert("set-ok", s.Set(ctx, b) == nil)
-		expireA := vfBool("expireA")
+		expireA := round == 0 && vfBool("expireA") // (the second round only adds a silence)
 		if expireA {
 			vfAssert("expire-ok", s.Expire(ctx, a.Id) == nil)
 		}
